@@ -1,7 +1,8 @@
 (* C10 -- Each interactive command or web request sees the pristine profile.
    Property theorems only (each closed by [exact] of a lemma of L_Session, or by computation on
    the tables regenerated from /repo on every run), followed by Print Assumptions. *)
-From PV Require Import M_Config M_Flags L_Flags M_Session S_Session L_Session Gen.Gen_ConfigTable Gen.Gen_CommandTable.
+From Coq Require Import QArith.
+From PV Require Import M_Config M_Flags L_Flags M_Session S_Session L_Session M_Measure Gen.Gen_UnitTable Gen.Gen_ConfigTable Gen.Gen_CommandTable.
 Open Scope string_scope.
 Open Scope Z_scope.
 
@@ -100,6 +101,29 @@ Print Assumptions option_flags_touch_only_named_options.
 Theorem no_option_flags_no_change : forall pf fs c, config_flags pf fs c [] = Ok c.
 Proof. exact config_flags_nil. Qed.
 Print Assumptions no_option_flags_no_change.
+
+(* ---------- shared helpers on the report path ---------- *)
+(* every value a report prints goes through the unit lookup of internal/measurement; the output
+   unit a report chose travels there by its CANONICAL name.  On the unit table the code has now,
+   each canonical name resolves to its own unit -- in particular names that differ only in case
+   (m*GCU / M*GCU) are different units with different factors, so the lookup cannot be keyed
+   case-insensitively *)
+Definition canonical_names_resolve (uts : list unit_type) : bool :=
+  forallb (fun ut => forallb (fun u => match sniff_unit ut (u_name u) with
+                                       | Some v => String.eqb (u_name v) (u_name u) && Qeq_bool (u_factor v) (u_factor u)
+                                       | None => false
+                                       end) (ut_units ut)) uts.
+Theorem canonical_unit_names_resolve_to_themselves : canonical_names_resolve unit_types = true.
+Proof. vm_compute. reflexivity. Qed.
+Print Assumptions canonical_unit_names_resolve_to_themselves.
+
+(* ... and there ARE canonical names that coincide once lower-cased, with different factors *)
+Theorem some_canonical_names_differ_only_in_case :
+  existsb (fun ut => existsb (fun u => existsb (fun v => String.eqb (to_lower (u_name u)) (to_lower (u_name v))
+                                                        && negb (Qeq_bool (u_factor u) (u_factor v)))
+                                               (ut_units ut)) (ut_units ut)) unit_types = true.
+Proof. vm_compute. reflexivity. Qed.
+Print Assumptions some_canonical_names_differ_only_in_case.
 
 (* ---------- the hypotheses are satisfiable / the model does what one expects ---------- *)
 Definition env0 : env :=
